@@ -63,12 +63,32 @@ func genAttrs(r *rt.Rand) (TMap, string, string) {
 	attrCtr++
 	id := fmt.Sprintf("attrs-%d", attrCtr)
 	e, h := string(genBytesVal(r))+"E", string(genBytesVal(r))+"H"
-	tagRegistry.Store(id, []encrypt.PointerTag{
+	tags := []encrypt.PointerTag{
 		{Pointer: "/__id", Classification: encrypt.PublicClassification},
 		{Pointer: "/e", Classification: encrypt.SensitiveClassification, Filter: encrypt.EncryptOperation},
 		{Pointer: "/h", Classification: encrypt.SensitiveClassification, Filter: encrypt.HmacSha256Operation},
-	})
-	return TMap{"__id": id, "e": e, "h": h}, e, h
+	}
+	m := TMap{"__id": id, "e": e, "h": h}
+	if r.Bool() {
+		// byte-slice values (incl. empty and non-UTF8) selected by pointer tags; same plaintext as /e and /h
+		tags = append(tags,
+			encrypt.PointerTag{Pointer: "/eb", Classification: encrypt.SensitiveClassification, Filter: encrypt.EncryptOperation},
+			encrypt.PointerTag{Pointer: "/hb", Classification: encrypt.SecretClassification, Filter: encrypt.HmacSha256Operation})
+		m["eb"], m["hb"] = []byte(e), []byte(h)
+	}
+	tagRegistry.Store(id, tags)
+	return m, e, h
+}
+
+// attrString reads a protected Taggable value, which the filter may leave as a string or as bytes.
+func attrString(v interface{}) (string, bool) {
+	switch x := v.(type) {
+	case string:
+		return x, true
+	case []byte:
+		return string(x), true
+	}
+	return "", false
 }
 
 // config in force
@@ -219,14 +239,25 @@ func TestC16(t *testing.T) {
 					desc += "wrapper "
 				}
 				if v := optBytes(cr, "psalt"); v != nil && cr.Bool() {
-					cur.salt, rp.salt = v, v
+					cur.salt, rp.salt = v, append(make([]byte, 0, len(v)), v...)
 					desc += fmt.Sprintf("salt=%q ", v)
 				}
 				if v := optBytes(cr, "pinfo"); v != nil && cr.Bool() {
-					cur.info, rp.info = v, v
+					cur.info, rp.info = v, append(make([]byte, 0, len(v)), v...)
 					desc += fmt.Sprintf("info=%q ", v)
 				}
 				out, err := f.Process(ctx, &eventlogger.Event{Type: "t", Payload: rp})
+				if cr.Bool() {
+					// the sender of the rotation payload wipes its own buffers once the payload was consumed:
+					// the values in force are those the payload reported while it was processed
+					for k := range rp.salt {
+						rp.salt[k] = 'X'
+					}
+					for k := range rp.info {
+						rp.info[k] = 'X'
+					}
+					desc += "sender wipes its buffers afterwards "
+				}
 				hist = append(hist, desc+")")
 				if out != nil || err != nil {
 					run.Violation("history-pattern:rotation-payload", fmt.Sprintf("a rotation payload must be consumed: out=%v err=%v", out != nil, err), hist)
@@ -313,6 +344,20 @@ func TestC16(t *testing.T) {
 						run.Violation("history-pattern:wrong-key-or-value", fmt.Sprintf("pointer-tagged value /h = %q, HMAC under the key/salt/info in force is %q", gh, want), wit("Taggable map value"))
 					}
 					run.Add("values_verified", 2)
+					if _, has := attrs["eb"]; has {
+						gb, ok1 := attrString(gotAttrs["eb"])
+						ghb, ok2 := attrString(gotAttrs["hb"])
+						if pt, err := cryp.Open(gb, encKey); !ok1 || err != nil || string(pt) != attrE {
+							run.Violation("history-pattern:wrong-key-or-value", fmt.Sprintf("pointer-tagged []byte value /eb does not decrypt to the original bytes %q with the wrapper in force (got %q, %v)", attrE, pt, err), wit("Taggable map []byte value"))
+						}
+						if want := cryp.Hmac([]byte(attrH), hmacKey, salt, info); !ok2 || ghb != want {
+							run.Violation("history-pattern:wrong-key-or-value", fmt.Sprintf("pointer-tagged []byte value /hb = %q, HMAC of the original bytes under the key/salt/info in force is %q", ghb, want), wit("Taggable map []byte value"))
+						}
+						if ok2 && ghb != gh {
+							run.Violation("history-pattern:digest-not-deterministic", "equal inputs (a string and a []byte with the same bytes) under equal keys gave different digests", wit(""))
+						}
+						run.Add("values_verified", 2)
+					}
 				}
 				if got.Hm != got.Hm2 {
 					run.Violation("history-pattern:digest-not-deterministic", "equal inputs under equal keys gave different digests", wit(""))
